@@ -226,6 +226,7 @@ func (e *kvElection) Start(ctx context.Context) error {
 		if err := e.attemptAcquire(); err != nil {
 			e.recordAcquireAttempt("failed")
 			e.recordFailure(classifyErrorType(err))
+			verifNote(e, "start_acq_failed", 0)
 			e.becomeFollower()
 		}
 	}()
@@ -239,6 +240,7 @@ func (e *kvElection) attemptAcquireWithRetry(ctx context.Context) {
 	jitterRange := jitterMax - jitterMin
 	initialJitter := jitterMin + time.Duration(rand.Float64()*float64(jitterRange))
 
+	verifNote(e, "round_start", int64(initialJitter))
 	log := e.getLogger()
 	log.Debug("attempting_acquire_with_retry",
 		append(e.logWithContext(ctx),
@@ -275,11 +277,13 @@ func (e *kvElection) attemptAcquireWithRetry(ctx context.Context) {
 					zap.Error(err),
 				)...,
 			)
+			verifNote(e, "round_exhausted", 0)
 			e.becomeFollower()
 			return
 		}
 
 		finalBackoff := CalculateBackoff(DefaultBackoffConfig(), retry)
+		verifNote(e, "round_backoff", int64(finalBackoff))
 		log.Debug("acquire_retry",
 			append(e.logWithContext(ctx),
 				zap.Int("retry", retry),
@@ -350,6 +354,7 @@ func (e *kvElection) attemptAcquire() error {
 	)
 
 	e.recordAcquireAttempt("success")
+	verifNote(e, "acq_create_ok", int64(rev))
 	e.becomeLeader(token, rev)
 	return nil
 }
@@ -470,6 +475,7 @@ func (e *kvElection) attemptPriorityTakeover(payloadBytes []byte) error {
 
 	e.revision.Store(newRev)
 	e.token.Store(newPayloadStruct.Token)
+	verifNote(e, "takeover_ok", int64(newRev))
 	e.becomeLeader(newPayloadStruct.Token, newRev)
 	return nil
 }
